@@ -425,17 +425,25 @@ def run_fd(kind, script, sched, sizes, use_poll=False, timed=True, encoding=None
             peer.rsock.settimeout(7.5)
             sock_timeout_before = peer.rsock.gettimeout()
             p = SP.SocketSpawn(SockProxy(peer.rsock, peer, gap), timeout=5, encoding=encoding)
-        for size in sizes:
+        for i, size in enumerate(sizes):
+            if kind == 'socket' and i % 3 == 1:
+                # the application changes the socket's own timeout after wrapping it: each read must leave what it finds
+                peer.rsock.settimeout([3.25, None, 11.0, 7.5][(i // 3) % 4])
+                sock_timeout_before = peer.rsock.gettimeout()
             try:
                 d = p.read_nonblocking(size, timeout=(0.3 if timed else 0))
                 outs.append(('d', d if isinstance(d, bytes) else d.encode('latin-1', 'replace')))
             except pexpect.EOF:
-                outs.append(('eof',)); break
+                outs.append(('eof',))
             except pexpect.TIMEOUT:
                 outs.append(('timeout',))
             except Exception as ex:         # noqa
-                outs.append(('exc', type(ex).__name__)); break
-        if kind == 'socket':
+                outs.append(('exc', type(ex).__name__))
+            if kind == 'socket' and peer.rsock.gettimeout() != sock_timeout_before and sock_timeout_after is None:
+                sock_timeout_after = peer.rsock.gettimeout()          # the first read that did not leave the setting as found
+            if outs[-1][0] in ('eof', 'exc'):
+                break
+        if kind == 'socket' and sock_timeout_after is None:
             sock_timeout_after = peer.rsock.gettimeout()
     finally:
         FD.select_ignore_interrupts, FD.poll_ignore_interrupts, SB.os = saved
@@ -484,8 +492,10 @@ while True:
 '''
 
 
-def run_popen(script, sizes, gaps_between=0.0, encoding=None, timeout=0.05):
-    """script: ('W', bytes) | ('E',); the harness performs one peer action before each read (None-padded)."""
+def run_popen(script, sizes, gaps_between=0.0, encoding=None, timeout=0.05, adversarial=0):
+    """script: ('W', bytes) | ('E',); the harness performs one peer action before each read (None-padded).
+    adversarial=k > 0: the next k peer actions happen, and the reader thread handles them (queues the data / the end marker and, after an exit,
+    finishes), in the window right after the consumer found the queue empty - the schedule in which the thread overtakes read_nonblocking."""
     d = tempfile.mkdtemp(prefix='verif_po_')
     c = os.path.join(d, 'c'); a = os.path.join(d, 'a')
     os.mkfifo(c); os.mkfifo(a)
@@ -496,15 +506,44 @@ def run_popen(script, sizes, gaps_between=0.0, encoding=None, timeout=0.05):
     outs = []
     script = list(script)
     exited = False
+    st = dict(written=b'', exited=False)
+    deferred = []
+
+    def perform(act):
+        q0 = p._read_queue.qsize()
+        if act[0] == 'W':
+            os.write(cw, b'W' + len(act[1]).to_bytes(4, 'big') + act[1]); os.read(ar, 1)
+            st['written'] += act[1]
+        elif not st['exited']:
+            os.write(cw, b'E'); os.read(ar, 1); st['exited'] = True
+        return q0
+    if adversarial:
+        import queue as _q
+        orig_get = p._read_queue.get_nowait
+
+        def get_nowait():
+            try:
+                return orig_get()
+            except _q.Empty:
+                while deferred:
+                    act = deferred.pop(0)
+                    q0 = perform(act)
+                    t0 = time.time()
+                    if act[0] == 'W':
+                        while p._read_queue.qsize() <= q0 and time.time() - t0 < 2:
+                            time.sleep(0.0005)
+                    else:
+                        p._read_thread.join(2)
+                raise
+        p._read_queue.get_nowait = get_nowait
     try:
         for size in sizes:
-            if script:
-                act = script.pop(0)
-                if act[0] == 'W':
-                    os.write(cw, b'W' + len(act[1]).to_bytes(4, 'big') + act[1]); os.read(ar, 1)
-                    written += act[1]
-                elif not exited:
-                    os.write(cw, b'E'); os.read(ar, 1); exited = True
+            if script and adversarial:
+                for _ in range(adversarial):
+                    if script:
+                        deferred.append(script.pop(0))
+            elif script:
+                perform(script.pop(0))
             try:
                 r = p.read_nonblocking(size, timeout)
                 outs.append(('d', r))
@@ -512,15 +551,16 @@ def run_popen(script, sizes, gaps_between=0.0, encoding=None, timeout=0.05):
                 outs.append(('eof',)); break
             except Exception as ex:       # noqa
                 outs.append(('exc', type(ex).__name__)); break
+            while deferred:               # the read never found the queue empty
+                perform(deferred.pop(0))
             if gaps_between:
                 time.sleep(gaps_between)
         # finish: make the child exit and read to EOF
-        if not exited:
+        if not st['exited']:
             for act in script:
                 if act[0] == 'W':
-                    os.write(cw, b'W' + len(act[1]).to_bytes(4, 'big') + act[1]); os.read(ar, 1)
-                    written += act[1]
-            os.write(cw, b'E'); os.read(ar, 1)
+                    perform(act)
+            perform(('E',))
         tail = []
         t0 = time.time()
         while (not outs or outs[-1][0] != 'eof') and time.time() - t0 < 10:
@@ -547,4 +587,4 @@ def run_popen(script, sizes, gaps_between=0.0, encoding=None, timeout=0.05):
         except Exception:
             pass
         shutil.rmtree(d, ignore_errors=True)
-    return dict(outs=outs, tail=tail, written=written)
+    return dict(outs=outs, tail=tail, written=st['written'])
